@@ -53,6 +53,9 @@ type Call struct {
 	// Alias (run): input name -> other input name whose very tensor OBJECT is passed for it too (the two hold equal
 	// values; the caller made one tensor and passed it twice).
 	Alias map[string]string `json:"alias,omitempty"`
+	// Rearrange (refill): instead of overwriting the contents, the caller passes the earlier call's tensor objects
+	// "swapped" (each under the next input name) or after reshaping them in place ("reshaped": extents reversed).
+	Rearrange string `json:"rearrange,omitempty"`
 	// CarryBacking (pieces): the caller carries the state as the plain slice it got from Data() and wraps it in a NEW
 	// tensor for the next piece; the tensor object Run returned is dropped.
 	CarryBacking bool `json:"carry_backing,omitempty"`
